@@ -19,5 +19,6 @@ package compress
 //@   modifies w.buffer.unread, w.writer.dst
 //@   fresh
 //@   ensures[returns_a_copy_of_all_compressed_bytes] len(r) == old(w.buffer.unread)
+//@   ensures[the_chunk_handed_out_is_not_the_writers_own_buffer] fresh(r)
 //@   ensures[reuse_starts_clean] w.buffer.unread == 0
 //@ end
